@@ -21,7 +21,7 @@ from mc.checks import rules_common as R
 
 PROPERTY = "C08"
 LEVEL = "exploration"
-RULE = ("cases = every (expression, position, placement) triple over 56 ill-typed/partial/lazily failing transaction expressions x 6 positions x 3 placements, "
+RULE = ("cases = every (expression, position, placement) triple over 56 ill-typed/partial/lazily failing transaction expressions x 9 positions x 3 placements, "
         "and every (filter, kind, placement) triple over 14 view expressions x 3 kinds x 3 placements (thorough adds all ordered pairs of two bad "
         "rules); each case classifies 10 transactions (4 merchants for views) through 3 entry points. non-trivial = cases whose file the loader "
         "accepts and whose expression raises for at least one item; triples distinct by construction")
